@@ -84,7 +84,9 @@ CLAIMS = {
               "server/health check and the cluster types a missing session gives 403 (grpc_refused_without_session), "
               "cluster types need the cluster token when configured (cluster_requests_need_token). Tie: a scenario with the real "
               "binary (auth on, access tokens that live 3 s, real logins, kill + restart: an absent, made-up or outlived token is "
-              "answered 403 before and after every restart) and tables "
+              "answered 403 before and after every restart), the real gRPC service object served by tonic on loopback (fill_token_session "
+              "reads the payload's headers: user token x cluster token absent / empty / prefix / exact / longer / garbage x every "
+              "request type) and tables "
               "re-extracted by the translator each run + correspondence sweep of endpoints x spellings x carriers x "
               "token values through the real ApiCheckAuth/app_config and InvokerHandler::handle in-process; the oracle "
               "rejects any non-exempt data endpoint reached without a valid token (this found and fixed a real "
@@ -125,7 +127,8 @@ CLAIMS = {
         note=("partial: the multi-node part (kills, restarts, leader changes, SetTmpValue ordering on followers) is not "
               "proved; it is Raft's guarantee plus runtime behaviour, explored on real 3-process clusters: three directed "
               "scenarios in both tiers (the same key written through every node; the leader killed and followers written to "
-              "before the election; a key published through one node and removed through another right away, all six pairs), random fault scenarios in the thorough tier; the standalone node is also driven through "
+              "before the election; a key published through one node and removed through another right away, all six pairs; a "
+              "follower frozen during a burst of 24 writes and continued), random fault scenarios in the thorough tier; the standalone node is also driven through "
               "handle_route, the leader's side of a forwarded write (rpub / rdel)"),
         technique="translator-regenerated call-site table + Lean 4 theorem (decision model of the answer) + differential correspondence on a real standalone node"),
     "C07": dict(
